@@ -28,7 +28,7 @@ type CaseC18 struct {
 	FailAt   int     `json:"fail_at"`   // index of the packet write that fails, -1 = none
 	FailN    int     `json:"fail_n"`    // count returned by the failing packet write
 	Ctor     int     `json:"ctor"`      // 0 IOWriter, 1 IOWriteCloser, 2 IOWriter(PacketWriterFunc), 3 IOWriteCloser(NopCloser(func)), 4/5 as 0/1 with a packet writer that also has its own Write method
-	ErrKind  int     `json:"err_kind"`  // error the failing reader returns: 0 plain, 1 timeout-like (Timeout() true), 2 os.ErrDeadlineExceeded, 3 io.ErrNoProgress
+	ErrKind  int     `json:"err_kind"`  // error the failing reader returns: 0 plain, 1 timeout-like (Timeout() true), 2 os.ErrDeadlineExceeded, 3 io.ErrNoProgress, 4 wraps io.EOF, 5 wraps io.ErrUnexpectedEOF
 	Reader   int     `json:"reader"`    // 0 bytes.Reader 1 bufio 2 one-byte 3 half 4 data-with-EOF 5 chunks
 	Chunks   []int   `json:"chunks"`    // for reader kind 5
 	ReadFail int     `json:"read_fail"` // reader fails with its own error after this many bytes, -1 = never
@@ -50,7 +50,7 @@ func genC18(t *rapid.T) CaseC18 {
 		c.FailN = rapid.SampledFrom([]int{0, 0, 188, 10}).Draw(t, "fail-n")
 	}
 	c.Ctor = rapid.IntRange(0, 5).Draw(t, "ctor")
-	c.ErrKind = rapid.IntRange(0, 3).Draw(t, "err-kind")
+	c.ErrKind = rapid.IntRange(0, 5).Draw(t, "err-kind")
 	c.Reader = rapid.IntRange(0, 5).Draw(t, "reader")
 	if c.Reader == 5 {
 		c.Chunks = rapid.SliceOfN(rapid.IntRange(1, 400), 1, 6).Draw(t, "chunks")
@@ -102,6 +102,10 @@ type c18SinkW struct {
 
 func (s *c18SinkW) Write(p []byte) (int, error) { s.ownWrites++; return len(p), nil }
 
+// the reader's own errors may wrap the io sentinels (errors.Is matches them, == does not): they are still its own errors
+var errC18WrapsEOF = fmt.Errorf("harness: connection reset: %w", io.EOF)
+var errC18WrapsUnexpectedEOF = fmt.Errorf("harness: short record: %w", io.ErrUnexpectedEOF)
+
 type c18TimeoutErr struct{}
 
 func (c18TimeoutErr) Error() string   { return "harness: i/o timeout" }
@@ -116,6 +120,10 @@ func c18ReaderErr(kind int) error {
 		return os.ErrDeadlineExceeded
 	case 3:
 		return io.ErrNoProgress
+	case 4:
+		return errC18WrapsEOF
+	case 5:
+		return errC18WrapsUnexpectedEOF
 	}
 	return errC18Reader
 }
@@ -313,7 +321,7 @@ func checkC18(c CaseC18, x *hx.Ctx) *hx.Failure {
 var propC18 = hx.Register(hx.Prop[CaseC18]{ID: "C18", Gen: genC18, Check: checkC18})
 
 func c18Rule() {
-	hx.Rec("C18").SetRule("cases: 0..12 packets of deterministic contents (+ 0..187 extra bytes), a packet-writer mock that records a copy of every packet and fails at a drawn index with a drawn count, the four adapter constructions plus two over a packet writer whose type also has its own Write method, and for ReadFrom the same contents through bytes.Reader, bufio.Reader, one-byte reader, half reader, data-with-EOF reader, drawn chunk sizes 1..400, and a reader that fails after k bytes with a plain, timeout-like, os.ErrDeadlineExceeded or io.ErrNoProgress error (followed by a second ReadFrom on the same adapter); ReadFrom driven directly or through io.Copy. Oracle: the sequence of packets seen by the mock, returned count and error, per the statement. Enumerated: every (packet count 0..6, partial tail in {0,1,94,187}, reader kind, failing position) combination. Non-trivial: a fragmenting reader (not one packet per Read) or a failure position strictly inside the sequence.",
+	hx.Rec("C18").SetRule("cases: 0..12 packets of deterministic contents (+ 0..187 extra bytes), a packet-writer mock that records a copy of every packet and fails at a drawn index with a drawn count, the four adapter constructions plus two over a packet writer whose type also has its own Write method, and for ReadFrom the same contents through bytes.Reader, bufio.Reader, one-byte reader, half reader, data-with-EOF reader, drawn chunk sizes 1..400, and a reader that fails after k bytes with a plain, timeout-like, os.ErrDeadlineExceeded, io.ErrNoProgress or EOF-wrapping error (followed by a second ReadFrom on the same adapter); ReadFrom driven directly or through io.Copy. Oracle: the sequence of packets seen by the mock, returned count and error, per the statement. Enumerated: every (packet count 0..6, partial tail in {0,1,94,187}, reader kind, failing position) combination. Non-trivial: a fragmenting reader (not one packet per Read) or a failure position strictly inside the sequence.",
 		"the packet-writer mock returns 188 on success (the io.Writer-style contract the adapter documents)")
 }
 
